@@ -83,7 +83,11 @@ func Main(args []string) int {
 		DebugAdds(p, ResolveAnchors(p))
 		return 0
 	case "dbgreach":
-		p, err := Load(LoadConfig{Repo: "/repo"})
+		repo := "/repo"
+		if len(args) > 2 {
+			repo = args[2]
+		}
+		p, err := Load(LoadConfig{Repo: repo})
 		if err != nil {
 			fmt.Fprintln(os.Stderr, err)
 			return 1
@@ -105,6 +109,14 @@ func Main(args []string) int {
 			return 1
 		}
 		DebugDyn(p, args[2])
+		return 0
+	case "dbgvta":
+		p, err := Load(LoadConfig{Repo: args[1]})
+		if err != nil {
+			fmt.Fprintln(os.Stderr, err)
+			return 1
+		}
+		DebugVTA(p, args[2])
 		return 0
 	case "dbgstrip":
 		p, err := Load(LoadConfig{Repo: "/repo"})
